@@ -246,6 +246,7 @@ bt_en_decode(uint8_t *buf, size_t buf_size, bt_en_node_p *ret_data, size_t *ret_
 			/* Key mast bee string. */
 			if (d[items_count].key->type != BT_EN_TYPE_STR) {
 				bt_en_free(d[items_count].key);
+				error = EBADMSG;
 				break;
 			}
 			cur_pos += buf_off;
